@@ -24,6 +24,9 @@ Exprs == {
   \* see DESIGN: TLC does not keep non-ASCII characters in states reliably): character positions are not byte positions
   "\"h~E~llo\"[1]", "\"h~E~llo\"[2]", "\"h~E~llo\"[5]", "\"~E~\"[0]", "\"~E~\"[1]", "\"~J~~J~\"[1]", "\"~J~~J~\"[2]", "\"~M~\"[0]", "\"~M~\"[1]", "\"a~M~b\"[2]",
   "\"~E~\".len()", "\"a~E~\" * 2", "\"~E~\" + \"a\"", "\"~E~\" == \"e\"", "\"h~E~llo\".substring(1, 2)", "\"h~E~llo\".index_of(\"l\")", "\"~J~x\"[k]",
+  \* escape sequences the language does not have, also in front of a character of more than one byte (the escape is two
+  \* characters, not two bytes), at the start and at the end of a literal
+  "\"\\q\"", "\"a\\q\"", "\"caf\\~E~\"", "\"5\\~J~\"", "\"\\~M~\"", "\"\\~E~\\~E~\"", "\"\\u00e9\"", "\"\\x41\"", "\"\\0\"", "\"~E~\\n~J~\\t~M~\"", "\"\\\\~E~\"", "\"\\'\"",
   \* `Self` outside of a class
   "(get sx).foo", "(sx).foo", "sx == nil", "(get sx).val()", "get sx",
   "1 is nil", "xs is ys", "f == f", "xs == 1", "\"a\" * -1", "\"a\" * 2147483647", "\"a\" + nil", "1 + \"a\" + 2", "k += 1", "k = 5" }
@@ -37,6 +40,14 @@ Scaling == {
   Rep("(", 40) \o "k" \o Rep(")", 40), Rep("f(", 30) \o "1" \o Rep(")", 30), Rep("[", 20) \o "1" \o Rep("]", 20), Rep("-", 1) \o Rep("(-", 20) \o "k" \o Rep(")", 20),
   Rep("!", 1) \o Rep("(!", 20) \o "bt" \o Rep(")", 20), "xs" \o Rep("[0]", 1) \o Rep(" + xs[0]", 30), "(io) or " \o Rep("(io) or ", 20) \o "1",
   "dm", "-dm", "dm + 1", "!dm", "dm * dm", "f(-dm)", "f(dm)", "dm == 5", "xs[dm]" }
+
+(* constant arithmetic at the boundaries of the integer kinds: every operand pair x operator is folded by the compiler, and   *)
+(* the cases without a result (overflow, zero divisor, MIN / -1, MIN % -1, shift amounts) must come back as diagnostics     *)
+FoldOperands == {"(-2147483647 - 1)", "2147483647", "-1", "0", "1", "2", "31", "32", "(-B170141183460469231731687303715884105727 - B1)",
+                 "B170141183460469231731687303715884105727", "B-1", "B0", "127", "128", "0b11111111", "0b0", "1.5", "0.0"}
+FoldOps == {"+", "-", "*", "/", "%", "<<", ">>"}
+FoldExprs == {a \o " " \o op \o " " \o b : a \in FoldOperands, op \in FoldOps, b \in FoldOperands}
+FoldContexts == {"print", "typed_decl", "index"}
 
 Contexts == {"stmt", "print", "decl", "typed_decl", "arg", "arg2", "method_arg", "ctor_arg", "push_arg", "list_elem", "index", "cond", "while_cond",
              "bound", "step", "ret", "operand_l", "operand_r", "assert", "reassign", "field_assign", "index_assign", "map_value", "in_fn", "in_method", "or_fallback",
@@ -101,7 +112,7 @@ Placed(pl, line) ==
       [] pl = "after_use" -> <<"print 1", line, "print 2">>
 
 VARIABLE c
-Init == c \in [kind : {"expr"}, e : Exprs \cup Scaling, ctx : Contexts] \cup [kind : {"import"}, form : Forms, path : Paths, place : Places]
+Init == c \in [kind : {"expr"}, e : Exprs \cup Scaling, ctx : Contexts] \cup [kind : {"expr"}, e : FoldExprs, ctx : FoldContexts] \cup [kind : {"import"}, form : Forms, path : Paths, place : Places]
 Next == UNCHANGED c
 
 Lines == IF c.kind = "expr" THEN Prologue \o In(c.ctx, c.e) ELSE Placed(c.place, ImportLine(c.form, c.path))
